@@ -79,7 +79,7 @@ void DynamicConstructorDataGlobal::reloadPoints(std::function<int(int)> getNumPo
 
 void DynamicConstructorDataGlobal::clearTesnors(){
     for(auto t = tensors.begin(), p = tensors.before_begin(); t != tensors.end(); t++){
-        if (t->weight >= 0.0){
+        if (t->weight >= 0.0 && !t->loaded.empty()){ // keep the initial tensors and the complete tensors that wait for their lower neighbors
             tensors.erase_after(p);
             t = p;
         }else{
@@ -91,7 +91,7 @@ void DynamicConstructorDataGlobal::clearTesnors(){
 MultiIndexSet DynamicConstructorDataGlobal::getInitialTensors() const{
     Data2D<int> tens(num_dimensions, 0);
     for(auto const &t : tensors){
-        if (t.weight < 0.0)
+        if (t.weight < 0.0 || t.loaded.empty()) // the tensors kept by clearTesnors(), must not be added again as candidates
             tens.appendStrip(t.tensor);
     }
     return MultiIndexSet(tens);
